@@ -86,7 +86,8 @@ theorem compile_gstmt : ∀ (fuel : Nat),
           fun f _ => (compile_gexpr f).1
         rcases okGS_exprS_inv _ _ sp e hs with ⟨asp, op, isp, ity, name, isFn, r, rfl, hr, hlog⟩ |
           ⟨isp, ty, cnd, t, eb, rfl, hty, hcnd, ht, heb⟩ | ⟨isp, ty, cnd, t, rfl, hty, hcnd, ht⟩ |
-          ⟨csp, cty, isp, ity, name, g, f, si, args, sw, rfl, hcase⟩ | ⟨tsp, tty, tb, ci, cb, rfl, htty, htb, hcb⟩
+          ⟨csp, cty, isp, ity, name, g, f, si, args, sw, rfl, hcase⟩ | ⟨tsp, tty, tb, ci, cb, rfl, htty, htb, hcb⟩ |
+          ⟨msp, mty, mc, arms, db, rfl, hmty, hmc, hmarms, hmdb⟩
         · simp only [Frag.cdS, Frag.cdX] at hd
           obtain ⟨f', rfl⟩ : ∃ f', fuel = f' + 1 := ⟨fuel - 1, by have := cdE_pos r; omega⟩
           simp only [Frag.wsGS, Bool.and_eq_true] at hws
@@ -323,6 +324,70 @@ theorem compile_gstmt : ∀ (fuel : Nat),
           congr 1
           simp only [List.append_assoc, List.cons_append, List.nil_append]
           rfl
+        · -- `match c { … }` as a statement
+          simp only [Frag.cdS, Frag.cdX] at hd
+          obtain ⟨f', rfl⟩ : ∃ f', fuel = f' + 1 := ⟨fuel - 1, by have := cdE_pos mc; omega⟩
+          simp only [Frag.wsGS, Bool.and_eq_true] at hws
+          obtain ⟨⟨hvc, hwa⟩, hwd⟩ := hws
+          have hbodies : ∀ (after : String) (arms : List (List Expr × Expr)) (nms : List String) (fl : Nat),
+              arms.length = nms.length → Frag.okGArmsS il rt arms = true →
+              Frag.cdArmsS arms + arms.length + 1 ≤ fl → fl ≤ f' →
+              ∀ (c1 : SCode) (env' : CEnv), Frag.wsGArmsS cs.currModule cs.currFn (φOf cs) (loopsOf L) arms env' = true →
+              (compileArmBodies fl msp after (arms.zip nms)).run (updS cs L c1 env') =
+                ((), updS cs L (c1 ++ (cgArmsS cs.currModule cs.currFn (φOf cs) (loopsOf L) msp after arms nms env').1)
+                  (cgArmsS cs.currModule cs.currFn (φOf cs) (loopsOf L) msp after arms nms env').2) := by
+            intro after arms
+            induction arms with
+            | nil =>
+              intro nms fl hlen _ hfl _ c1 env' _
+              obtain ⟨g, rfl⟩ : ∃ g, fl = g + 1 := ⟨fl - 1, by omega⟩
+              cases nms with
+              | cons _ _ => simp at hlen
+              | nil =>
+                rw [List.zip_nil_left, compileArmBodies]
+                simp [cgArmsS]
+                rfl
+            | cons a rest iha =>
+              intro nms fl hlen hoka hfl hle c1 env' hwsa
+              obtain ⟨lits, act⟩ := a
+              cases act <;> try (simp [Frag.okGArmsS] at hoka; done)
+              rename_i b
+              cases nms with
+              | nil => simp at hlen
+              | cons nm nms =>
+                simp only [Frag.okGArmsS, Bool.and_eq_true] at hoka
+                simp only [Frag.cdArmsS, List.length_cons] at hfl hlen
+                simp only [Frag.wsGArmsS, Bool.and_eq_true] at hwsa
+                obtain ⟨g, rfl⟩ : ∃ g, fl = g + 2 := ⟨fl - 2, by omega⟩
+                rw [List.zip_cons_cons, compileArmBodies]
+                refine bind_run _ _ _ _ _ _ (emit_run_S _ _ _ _ _ _) ?_
+                refine bind_run _ _ _ _ _ _ (emit_run_S _ _ _ _ _ _) ?_
+                have hB := (ihAll g (by omega)).2.2 b cs L il rt hrt hil hoka.1.2 (by omega)
+                  (c1 ++ [(.label nm, msp)] ++ [(.drop, msp)]) env' hwsa.1
+                refine bind_run _ _ _ _ _ _ (by rw [compileExpr]; exact hB) ?_
+                refine bind_run _ _ _ _ _ _ (emit_run_S _ _ _ _ _ _) ?_
+                rw [iha nms (g + 1) (by omega) hoka.2 (by omega) (by omega) _ _ hwsa.2]
+                simp only [cgArmsS, List.append_assoc, List.cons_append, List.nil_append]
+          obtain ⟨g', rfl⟩ : ∃ g', f' = g' + 1 := ⟨f' - 1, by omega⟩
+          have ihB' := (ihAll g' (by omega)).2.2
+          rw [compileStmt, cgS]
+          refine bind_run _ _ _ (updS cs L (c0 ++ _) _) () _ ?_ (by simp [Expr.ty, hmty]; rfl)
+          rw [compileExpr]
+          refine bind_run _ _ _ _ _ _ (hGE (g' + 1) (by omega) mc cs hmc (by omega) L c0 env hvc) ?_
+          refine bind_run _ _ _ _ _ _ (mangleLabel_run_S _ _ _ _ _) ?_
+          refine bind_run _ _ _ _ _ _ (compileArmTests_run cs msp arms (g' + 1) (okGArmsS_lits il rt arms hmarms)
+            (by omega) _ _ _) ?_
+          refine bind_run _ _ _ _ _ _ (mangleLabel_run_S _ _ _ _ _) ?_
+          simp only [Option.isSome_some, if_true]
+          refine bind_run _ _ _ _ _ _ (emit_run_S _ _ _ _ _ _) ?_
+          refine bind_run _ _ _ _ _ _ (hbodies _ arms _ (g' + 1) (armTests_length _ _ _ _).symm hmarms (by omega)
+            (Nat.le_refl _) _ _ hwa) ?_
+          refine bind_run _ _ _ _ _ _ (emit_run_S _ _ _ _ _ _) ?_
+          refine bind_run _ _ _ _ _ _ (emit_run_S _ _ _ _ _ _) ?_
+          refine bind_run _ _ _ _ _ _ (by rw [compileExpr]; exact ihB' db cs L il rt hrt hil hmdb (by omega) _ _ hwd) ?_
+          refine bind_run _ _ _ _ _ _ (emit_run_S _ _ _ _ _ _) ?_
+          rw [emit_run_S]
+          simp only [List.append_assoc, List.cons_append, List.nil_append]
       case whileS sp c body =>
         simp only [Frag.okGS, Bool.and_eq_true] at hs
         obtain ⟨hc, hb⟩ := hs
